@@ -248,7 +248,7 @@ type c13COp struct {
 
 var c13NextCluster int // clusters are single-use per process: caches never forget a type
 
-var c13Args = []string{"nil-interface", "int", "string", "map", "slice", "ptr-to-int", "ptr-to-slice", "ptr-to-ptr-struct", "nil-struct-ptr-decode", "func", "chan", "ptr-to-map"}
+var c13Args = []string{"nil-interface", "int", "string", "map", "slice", "ptr-to-int", "ptr-to-slice", "ptr-to-ptr-struct", "ptr-to-ptr-struct-after-use", "ptr-to-ptr-ptr-struct-after-use", "ptr-to-ptr-named-after-use", "nil-struct-ptr-decode", "func", "chan", "ptr-to-map"}
 
 func genC13(t *rapid.T) c13Case {
 	c := c13Case{Salt: rapid.IntRange(0, 1<<30).Draw(t, "salt")}
@@ -485,6 +485,33 @@ func runC13Arg(w *worker, c c13Case) *Failure {
 	case "ptr-to-ptr-struct":
 		x := &S{}
 		arg = &x
+	case "ptr-to-ptr-struct-after-use", "ptr-to-ptr-ptr-struct-after-use":
+		// the struct type itself is fine and has been used, by pointer and by value: one more level of
+		// indirection is still not "a (pointer to a) struct"
+		if _, f := encodeExact(&S{}); f != nil {
+			return f
+		}
+		if _, f := encodeExact(S{}); f != nil {
+			return f
+		}
+		if _, err, f := fDecode([]byte{0}, &S{}); f != nil || err != nil {
+			return failf("valid-rejected", "decoding into a valid type failed: %v %v", err, f)
+		}
+		x := &S{}
+		arg = &x
+		if c.Arg == "ptr-to-ptr-ptr-struct-after-use" {
+			y := &x
+			arg = &y
+		}
+	case "ptr-to-ptr-named-after-use":
+		b := core.Bind(core.LookupSpec("MutA"))
+		p := b.New()
+		if _, f := encodeExact(p.Interface()); f != nil {
+			return f
+		}
+		pp := reflect.New(p.Type())
+		pp.Elem().Set(p)
+		arg = pp.Interface()
 	case "func":
 		arg = func() {}
 	case "chan":
